@@ -10,7 +10,7 @@ for d in sorted(glob.glob(os.path.join(HERE, "seeded", "*"))):
     rules = []
     for p, v in m.get("checks", {}).items():
         for x in v.get("violations", []):
-            mm = re.search(r"rule=(\S+) key=(\S+?)(?: where| ::)", x)
+            mm = re.search(r"rule=(\S+) key=", x)
             if mm:
                 r = mm.group(1)
                 if r not in rules and not r.endswith(".floor"):
